@@ -144,6 +144,7 @@ type vpFragReader struct {
 	maxZeros int
 	endErr   error
 	done     bool
+	cuts     []int // if set: fixed fragment boundaries (offsets into data) instead of arbitrary ones
 }
 
 func (f *vpFragReader) Read(p []byte) (int, error) {
@@ -155,7 +156,18 @@ func (f *vpFragReader) Read(p []byte) (int, error) {
 		rem = len(p)
 	}
 	var n int
-	if f.reads >= f.maxReads-1 {
+	if f.cuts != nil {
+		end := len(f.data)
+		for _, c := range f.cuts {
+			if c > f.pos && c < end {
+				end = c
+			}
+		}
+		n = end - f.pos
+		if n > rem {
+			n = rem
+		}
+	} else if f.reads >= f.maxReads-1 {
 		n = rem
 	} else if f.zeros >= f.maxZeros {
 		if rem == 0 {
